@@ -556,6 +556,49 @@ fn main() {
             ctx.count(&format!("tail_{tail:?}"));
             let mut run = Run { ctx: &mut ctx, prop: prop.clone(), m: &m, pos: &pos, vdesc: &vdesc };
             all_stacks(&mut run, &bv, thorough);
+            // the hinted primitives of the bit vector itself, called within their contract: every (position, hint
+            // word) / (rank, hint one) / (rank, hint zero) combination on vectors of up to 700 bits
+            if m.len() <= 700 && ctx.case(|| format!("BitVec::<hinted primitives> vector={vdesc}")) {
+                ctx.nontrivial();
+                let r = guard(|| -> Option<(String, String)> {
+                    if prop == "C01" {
+                        for p in 0..m.len() {
+                            for hw in 0..=p / 64 {
+                                // SAFETY: p < len, hw * 64 <= p, hint rank = ones before hw * 64
+                                let g = unsafe { RankHinted::<64>::rank_hinted(&bv, p, hw, m.prefix[hw * 64]) };
+                                if g != m.prefix[p] {
+                                    return Some(("BitVec::rank_hinted|wrong-answer".into(), format!("rank_hinted({p}, hint word {hw}, hint rank {}) = {g} expected {}", m.prefix[hw * 64], m.prefix[p])));
+                                }
+                            }
+                        }
+                    } else {
+                        for (r, &want) in m.ones.iter().enumerate() {
+                            for (hr, &hp) in m.ones[..=r].iter().enumerate() {
+                                // SAFETY: hp is the position of the one of rank hr <= r
+                                let g = unsafe { bv.select_hinted(r, hp, hr) };
+                                if g != want {
+                                    return Some(("BitVec::select_hinted|wrong-answer".into(), format!("select_hinted({r}, hint pos {hp}, hint rank {hr}) = {g} expected {want}")));
+                                }
+                            }
+                        }
+                        for (r, &want) in m.zeros.iter().enumerate() {
+                            for (hr, &hp) in m.zeros[..=r].iter().enumerate() {
+                                // SAFETY: hp is the position of the zero of rank hr <= r
+                                let g = unsafe { bv.select_zero_hinted(r, hp, hr) };
+                                if g != want {
+                                    return Some(("BitVec::select_zero_hinted|wrong-answer".into(), format!("select_zero_hinted({r}, hint pos {hp}, hint rank {hr}) = {g} expected {want}")));
+                                }
+                            }
+                        }
+                    }
+                    None
+                });
+                match r {
+                    Outcome::Ret(None) => {}
+                    Outcome::Ret(Some((k, w))) => ctx.violation(&format!("{prop}|{k}"), format!("{vdesc}: {w}")),
+                    Outcome::Panic(msg) => ctx.violation(&format!("{prop}|BitVec::<hinted primitives>|panic"), format!("{vdesc}: {msg}")),
+                }
+            }
             // which subinventory encodings did the adaptive selectors build on this vector? (verification hook)
             if prop == "C02" && tail == Tail::Fresh && ctx.case(|| format!("SelectAdapt::<span-type census> vector={vdesc}")) {
                 for inv in [0usize, 3, 5, 12] {
